@@ -34,6 +34,7 @@ type World struct {
 	DB      string
 	nextCon uint32
 	Sess    []*Sess
+	closed  bool
 }
 
 type Sess struct {
@@ -132,6 +133,10 @@ func (w *World) Restart(ctx context.Context) error {
 }
 
 func (w *World) Close() {
+	if w.closed {
+		return
+	}
+	w.closed = true
 	for _, s := range w.Sess {
 		s.End()
 	}
